@@ -498,6 +498,12 @@ func ruleTopK(r *Run, rule string, k *vecKind) {
 							if bi, ok := lc.Call.Value.(*ssa.Builtin); ok && bi.Name() == "len" && lc.Call.Args[0] == ssa.Value(mk) {
 								okBound = true
 							}
+							// for i, e := range L[:K]: the bound is len(L[:K]) = K
+							if bi, ok := lc.Call.Value.(*ssa.Builtin); ok && bi.Name() == "len" {
+								if sl, isSl := lc.Call.Args[0].(*ssa.Slice); isSl && sl.Low == nil && sl.High == ssa.Value(kcall) {
+									okBound = true
+								}
+							}
 						}
 					}
 				}
@@ -1088,8 +1094,8 @@ func ruleNodeLookup(r *Run, rule string, k *vecKind) {
 				tied := false
 				for _, d := range pth.Decisions {
 					bo, ok := d.Cond.(*ssa.BinOp)
-					if !ok || bo.Op != token.EQL || !d.Taken {
-						continue
+					if !ok || !((bo.Op == token.EQL && d.Taken) || (bo.Op == token.NEQ && !d.Taken)) {
+						continue // the ids are equal on this path: `==` taken, or `!=` not taken (guard clause)
 					}
 					l, rr := cp.S(bo.X), cp.S(bo.Y)
 					idOf := func(s string) bool {
